@@ -164,4 +164,6 @@ def gen_opt_config(rng, name, space):
         cfg["replacement"] = rng.choice([True, False])
     if rng.random() < 0.3:
         cfg["rand_rest_p"] = rng.choice([0.1, 0.5, 1.0])
-    return cfg
+    import inspect
+    ok = set(inspect.signature(opt_class(name).__init__).parameters)
+    return {k: v for k, v in cfg.items() if k in ok}
